@@ -50,6 +50,7 @@ class _ComprehensionRewrite(ast.NodeTransformer):
         [E for x in S if C]   ->  __pyvc_listcomp__(lambda x: E, S, lambda x: C)
         (E for x in S [if C]) ->  __pyvc_genexp__(lambda x: E, S[, lambda x: C])
         a in b / a not in b   ->  __pyvc_in__(a, b) / not __pyvc_in__(a, b)
+        f"..{v}.."            ->  __pyvc_fstr__(["..", (v, "", ""), ".."])
     for comprehensions with exactly one `for`, a plain-name (or tuple of names) target and no
     `await`/walrus.  For real iterables the helpers evaluate the very same comprehension
     (pyvc/seqmodel.py), so the rewrite is semantics-preserving; it exists only so that a symbolic
@@ -114,6 +115,22 @@ class _ComprehensionRewrite(ast.NodeTransformer):
         out = parts[0] if len(parts) == 1 else ast.BoolOp(op=ast.And(), values=parts)
         return ast.copy_location(out, node)
 
+    def visit_JoinedStr(self, node):
+        """f"..{v!c:spec}.."  ->  __pyvc_fstr__(["..", (v, "c", spec), ".."]); the helper applies Python's own
+        rule  format(conv(v), spec)  and joins, unless a piece is a symbolic string"""
+        self.generic_visit(node)
+        parts = []
+        for v in node.values:
+            if isinstance(v, ast.Constant):
+                parts.append(v)
+            else:
+                conv = {-1: "", 115: "s", 114: "r", 97: "a"}[v.conversion]
+                spec = v.format_spec if v.format_spec is not None else ast.Constant(value="")
+                parts.append(ast.Tuple(elts=[v.value, ast.Constant(value=conv), spec], ctx=ast.Load()))
+        self.count += 1
+        call = ast.Call(func=ast.Name(id="__pyvc_fstr__", ctx=ast.Load()), args=[ast.List(elts=parts, ctx=ast.Load())], keywords=[])
+        return ast.copy_location(call, node)
+
     def visit_ListComp(self, node):
         return self._rewrite(node, "__pyvc_listcomp__")
 
@@ -140,6 +157,9 @@ def load_private(modname):
     mod.__dict__["__pyvc_listcomp__"] = seqmodel.listcomp
     mod.__dict__["__pyvc_genexp__"] = seqmodel.genexp
     mod.__dict__["__pyvc_in__"] = seqmodel.contains
+    from .strmodel import fstr
+
+    mod.__dict__["__pyvc_fstr__"] = fstr
     # function-local `import re` statements are resolved through the module's __builtins__: bind a
     # copy whose __import__ hands out the `re` model (which defers to the real module on real strings)
     import builtins as _b
